@@ -8,7 +8,7 @@ import ast
 
 from .. import astutil as A
 from ..fa import FA, log_call
-from .effects import reach_effects, storage_backend_classes, QUERY_METHODS, MUTATOR_METHODS, Assume
+from .effects import reach_effects, storage_backend_classes, QUERY_METHODS, MUTATOR_METHODS, Assume, effective_function
 from .c05 import check_queries_effect_free
 
 
@@ -24,13 +24,16 @@ def persistent_effect_nodes(ck, fa: FA):
     mutation, or a call that reaches one.  -> [(stmt-or-expr node, description)]"""
     cg = ck.cg
     out = []
-    q = fa.qual
-    for n in cg.fs_write_sites.get(q, []):
+    # (a method whose statements were gathered from a helper it delegates to: the sites recorded for either)
+    quals = list(getattr(fa.fi, "parts", [fa.qual]))
+    for n in [n for q in quals for n in cg.fs_write_sites.get(q, [])]:
         out.append((n, "filesystem write %s" % A.short(n, 50)))
-    for (owner, fld, n) in cg.field_mut_sites.get(q, []):
+    for (owner, fld, n) in [x for q in quals for x in cg.field_mut_sites.get(q, [])]:
         if _persist_owner(ck, owner) and fld.split(":")[0] not in ("read_only", "config", "storage_type"):
             out.append((n, "mutation of %s.%s" % (owner.split(".")[-1], fld)))
-    for (call, cands, how) in cg.edges.get(q, []):
+    for (call, cands, how) in [x for q in quals for x in cg.edges.get(q, [])]:
+        if len(quals) > 1 and not fa.nodes(call):
+            continue        # the delegating call itself: its statements are here in its place
         for c in cands:
             if c.cls is not None and c.cls.qual == "storage_base.MemoryCache":
                 continue
@@ -81,7 +84,9 @@ def check_guard(ck):
             if m is None or repo.is_abstract(m) or m.qual in seen or name in ("create", "register", "to_dict"):
                 continue
             seen.add(m.qual)
-            fa = FA(ck, m)
+            # the statements that run when the method is called: wrappers of new decorators applied, a body that only
+            # delegates to a new helper replaced by the helper's
+            fa = FA(ck, effective_function(ck, m))
             effs = persistent_effect_nodes(ck, fa)
             if name in QUERY_METHODS:
                 continue  # decided by R2 (must have no effect at all)
